@@ -289,7 +289,7 @@ Dir(ctl, d, ps, q, st) ==
 \* the kinds of the prefix parameters after v and # have been resolved: pad and comma characters are characters, everything
 \* else is an integer (a v that took an argument of another kind leaves the consequences undefined: "open", not judged)
 ChrPos(ch) == CASE ch \in {"a", "s"} -> {4} [] ch \in {"d", "b", "o", "x"} -> {2, 3} [] ch = "r" -> {3, 4} [] OTHER -> {}
-KindsOK(d, ps) == d.ch \notin {"a", "s", "d", "b", "o", "x", "r", "%", "&", "|", "~", "t", "*"}
+KindsOK(d, ps) == d.ch \notin {"a", "s", "d", "b", "o", "x", "r", "%", "&", "|", "~", "t", "*", "["}
                   \/ \A i \in 1..Len(ps) : ps[i].t = "none" \/ (IF i \in ChrPos(d.ch) THEN ps[i].t = "chr" ELSE ps[i].t = "int")
 \* run ctl[p .. q-1]
 Run(ctl, p, q, st) ==
